@@ -507,6 +507,20 @@ def ieval(ft, t, env, assume=None, _nested=False):
         raise Undetermined(t[1])
     if tag == "cast" and t[1] == "IntToInt":
         return wrap(ieval(ft, t[2], env, assume, _nested), t[3])
+    if tag == "call" and isinstance(t[1], str):
+        name = t[1]
+        args = [ieval(ft, a, env, assume, _nested) for a in t[2]] if not name.endswith("unwrap_or") else None
+        if name.endswith("::pow") and len(args) == 2:
+            if args[1] < 0 or args[1] > 256:
+                raise Undetermined("pow")
+            return args[0] ** args[1]
+        if name in ("std::cmp::max", "core::cmp::max", "std::cmp::Ord::max"):
+            return max(args)
+        if name in ("std::cmp::min", "core::cmp::min", "std::cmp::Ord::min"):
+            return min(args)
+        if name in ft.facts.fns:
+            return call_eval(ft.facts, name, args)
+        raise Undetermined(name)
     if tag == "phi":
         r = resolve_under(ft, t, assume)
         if r is None and not _nested:
@@ -668,3 +682,39 @@ def mutators_of(ft, key):
                 out.append(c)
                 break
     return out
+
+
+def assumptions_by_eval(ft, env):
+    """assumptions {switch discr: value} obtained by evaluating every switch condition that is determined by env"""
+    extra = dict(env)
+    for b in sorted(ft.cfg.reach):
+        tm = ft.blocks[b]["term"]
+        if tm["k"] != "switch":
+            continue
+        d = ft.switch_term(b)
+        k = strip_site(d)
+        if k in extra or d[0] == "phi":
+            continue
+        try:
+            extra[k] = ieval(ft, d, env, extra, True)
+        except Undetermined:
+            pass
+    return extra
+
+
+def call_eval(facts, path, argvals):
+    """value returned by local function `path` for concrete small-domain arguments, obtained by evaluating its
+    MIR-derived return formula (finite-domain abstract evaluation; nothing of the crate is executed)"""
+    cft = fn_terms(facts, path)
+    env = {("param", i + 1): v for i, v in enumerate(argvals)}
+    extra = assumptions_by_eval(cft, env)
+    feas = feasible_blocks(cft, extra)
+    vals = set()
+    for rb in cft.return_blocks():
+        if rb not in feas:
+            continue
+        for leaf in leaves_under(cft, cft.return_term(rb), extra):
+            vals.add(ieval(cft, leaf, env, extra))
+    if len(vals) != 1:
+        raise Undetermined("call %s%s -> %s" % (path, tuple(argvals), sorted(vals)))
+    return vals.pop()
